@@ -11,12 +11,14 @@
 //! A *case* is (property, ciphersuite, scenario, case_seed).  Everything a scenario does is a
 //! function of case_seed, therefore `replay` only needs those four values.
 
+mod alloc_watch;
 mod common;
 mod indep;
 mod rng;
 mod snippet;
 
 mod c01;
+mod c02;
 mod c03;
 mod c04;
 mod c05;
@@ -35,6 +37,9 @@ mod c17;
 mod c18;
 mod c19;
 mod c20;
+
+#[global_allocator]
+static GLOBAL: alloc_watch::Watch = alloc_watch::Watch;
 
 use std::cell::RefCell;
 use std::panic::{catch_unwind, AssertUnwindSafe};
@@ -94,6 +99,7 @@ macro_rules! scn_tr {
 fn scenarios(property: &str) -> Option<Vec<Scenario>> {
     Some(match property {
         "C01" => c01::scenarios(),
+        "C02" => c02::scenarios(),
         "C03" => c03::scenarios(),
         "C04" => c04::scenarios(),
         "C05" => c05::scenarios(),
@@ -116,8 +122,8 @@ fn scenarios(property: &str) -> Option<Vec<Scenario>> {
     })
 }
 
-const PROPERTIES: [&str; 19] = [
-    "C01", "C03", "C04", "C05", "C06", "C07", "C08", "C09", "C10", "C11", "C12", "C13", "C14", "C15", "C16",
+const PROPERTIES: [&str; 20] = [
+    "C01", "C02", "C03", "C04", "C05", "C06", "C07", "C08", "C09", "C10", "C11", "C12", "C13", "C14", "C15", "C16",
     "C17", "C18", "C19", "C20",
 ];
 
@@ -143,6 +149,16 @@ fn install_panic_hook() {
             .unwrap_or_else(|| "<unknown>".to_string());
         LAST_PANIC.with(|p| *p.borrow_mut() = Some((msg, loc)));
     }));
+}
+
+/// (message, location) of the most recent panic on this thread
+pub fn take_last_panic() -> Option<(String, String)> {
+    // (a copy: a nested catch_unwind may re-raise, and the engine wants to see it too)
+    LAST_PANIC.with(|p| p.borrow().clone())
+}
+
+pub fn is_harness_location(loc: &str) -> bool {
+    loc.contains("/rt/crate/src/")
 }
 
 pub enum Outcome {
@@ -174,7 +190,7 @@ fn run_case(run: ScnFn, case_seed: u64) -> CaseResult {
                 .with(|p| p.borrow_mut().take())
                 .unwrap_or_else(|| ("<unknown>".into(), "<unknown>".into()));
             // a panic raised by the harness' own source is a harness bug, not a finding
-            if loc.contains("/rt/crate/src/") {
+            if is_harness_location(&loc) {
                 Outcome::HarnessBug(format!("harness panic at {loc}: {msg}"))
             } else {
                 Outcome::Fail(Failure {
